@@ -62,6 +62,9 @@ def run(F, R):
     z7_release_after_pop(F, R, M, roles)
     z8_pcm_complete(F, R, M, roles)
     z6_edid(F, R)
+    # Z9: the command queues run in the negotiated modes (C08.H3)
+    from .C08 import queue_modes_rule
+    queue_modes_rule(F, R, M, 'Z9', ['device::gpu', 'device::sound', 'device::rng', 'device::rtc', 'device::virtio_9p'])
 
 
 def z1_encodings(F, R):
